@@ -35,6 +35,12 @@ def cases(tier, seed):
         sel = [s_ for s_ in specs if s_[2].get("form", "g") == "g"]
         yield f"C03|cyclic|n={n}", {"specs": specs, "then_fresh": list(reversed(sel)), "tier": tier}
     if tier == "quick":
+        # lengths beyond 15 in the quick tier as well: n = 17 (8 divisors) and the divisors of X^21+1 with min(k, n-k) <= 9, every constructor form
+        # (generator / check / both) in ONE process per length, forwards and (fresh objects) backwards
+        for n_ in (17, 21):
+            sp = [s_ for s_ in C.cyclic("thorough", seed) if s_[2].get("n") == n_ and min(P.deg(s_[2]["g"]), n_ - P.deg(s_[2]["g"])) <= 9]
+            sel = [s_ for s_ in sp if s_[2].get("form", "g") == "g"]
+            yield f"C03|cyclic|n={n_}", {"specs": sp, "then_fresh": list(reversed(sel)), "tier": tier}
         # the larger fields are cheap for this property (one encoder + one distance computation per configuration): always include them
         extra = [s for s in C.bch("thorough", seed) if s[2].get("mu", 0) in (5, 6) or "(31," in s[1] or "(63," in s[1]]
         extra += [s for s in C.rs("thorough", seed) if s[2]["mu"] == 4]
